@@ -6,6 +6,16 @@ ROOT = os.path.dirname(os.path.dirname(os.path.abspath(__file__)))
 ALL = ["C%02d" % i for i in range(1, 21)]
 
 CLAIMED = {
+ "C08": dict(
+  text="Lean 4 theorems: for every packet, every split into buffers and every sequence of Write outcomes (short writes, deadline expiries "
+       "with and without progress, hard and closed errors) the bytes writeTo/writeBuffersTo put on a connection are a prefix of the packet and "
+       "the whole packet whenever success is reported; a connection used by consecutive writes that stops at the first failure carries complete "
+       "packets followed by at most one incomplete one (C08_connection_whole_packets). net.Buffers.WriteTo/consume is modelled as the stdlib "
+       "implements it. The model is run against the real writeTo/writeBuffersTo on exhaustive small-packet policies on every run; the "
+       "implementation's own output is also judged directly (prefix / success-means-complete). The clause over concurrent submitters is "
+       "carried by the Sync model (write-lock token invariant).",
+  design="6/C08", technique="Lean 4 proof (induction over retry fuel and buffer vectors) + differential correspondence over exhaustive write policies",
+  note="Lean kernel; axioms propext, Quot.sound; A-conn (Write accepts a prefix); vectored kernel writes not modelled"),
  "C09": dict(
   text="Lean 4 theorems: the remaining-length encoding is decoded exactly in <= 4 bytes for every size up to 2^28-1; every PUBLISH the client composes (all levels, retain, any accepted topic, any payload within the limit) and the four acknowledgements decode through an independently written reference decoder to exactly the requested fields; the deny decision of stringCheck/topicCheck/publish/subscribe/unsubscribe is characterised declaratively in both directions (no valid argument refused). Model tied to the source by regenerated constants and by running stringCheck, publishPacket, Config.valid and newCONNREQ of the real package against the model and decoding every emitted packet with the Lean decoder.",
   design="6/C09", technique="Lean 4 proof (round-trip laws, decision logic) + differential correspondence + reference decoder on emitted bytes",
